@@ -6,6 +6,7 @@ import (
 	"fmt"
 	"go/ast"
 	"go/token"
+	"go/types"
 	"regexp/syntax"
 	"sort"
 	"strings"
@@ -52,10 +53,23 @@ func hasGuard(gs []string, sign string, substrs ...string) bool {
 	return false
 }
 
-// mapLiteralKeys returns the keys (as source text) of a package-level map literal variable.
-func (c *Ctx) mapLiteralKeys(pkgShort, varName string) ([]string, bool) {
+// mapLiteralKeys returns the keys (as source text) of the package-level map literal variable of the given type
+// (e.g. "map[proto.MercuryEntitySelector_Priority]bool"); the variable's name is free.
+func (c *Ctx) mapLiteralKeys(pkgShort, mapType string) ([]string, bool) {
 	pk := c.P.ByPath[pkgPathOf(pkgShort)]
 	if pk == nil {
+		return nil, false
+	}
+	varName := ""
+	for _, nm := range pk.Types.Scope().Names() {
+		if v, ok := pk.Types.Scope().Lookup(nm).(*types.Var); ok && shortType(v.Type()) == mapType {
+			if varName != "" {
+				return nil, false
+			}
+			varName = nm
+		}
+	}
+	if varName == "" {
 		return nil, false
 	}
 	var keys []string
@@ -313,20 +327,26 @@ func runNyctTrips(c *Ctx) {
 	// X2: M-train fix
 	{
 		fname := shortName(fix)
-		keys := localMapLiteralKeys(fix)
-		var stations []string
-		for _, ks := range keys {
-			stations = ks
-		}
 		wantStations := []string{"M11", "M12", "M13", "M14", "M16", "M18"}
-		c.Check(strings.Join(stations, ",") == strings.Join(wantStations, ","), "NYCT", fname, "affected stations are M11-M14, M16, M18", p.pos(fix.Pos()), strings.Join(stations, ","), "the station table is "+strings.Join(stations, ",")+", documented set is "+strings.Join(wantStations, ","))
 		n := 0
 		for _, fs := range collectFieldStores([]*ssa.Function{fix}, "proto.TripUpdate_StopTimeUpdate") {
 			n++
 			gs := guardStrings(b, fs.store.Block())
 			okRoute := hasGuard(gs, "-", "proto:TripDescriptor.RouteId", `!= const:"M"`) || hasGuard(gs, "+", "proto:TripDescriptor.RouteId", `== const:"M"`)
 			okLen := hasGuard(gs, "-", "len(proto:TripUpdate_StopTimeUpdate.StopId", "!= const:4") || hasGuard(gs, "+", "len(proto:TripUpdate_StopTimeUpdate.StopId", "== const:4")
-			okTable := hasGuard(gs, "+", "lookup(buggyStationIDs") || hasGuard(gs, "+", "lookup(")
+			// membership in the station set: a table lookup or a predicate helper, whichever way it is written
+			var stations []string
+			okTable := false
+			for _, ce := range dominatingConds(fs.store.Block()) {
+				if ce.Composite {
+					continue
+				}
+				if set, subj, ok := c.membershipSet(ce.Cond); ok && ce.Val {
+					stations = set
+					okTable = strings.Contains(b.bind(subj), "slice(proto:TripUpdate_StopTimeUpdate.StopId")
+				}
+			}
+			c.Check(strings.Join(stations, ",") == strings.Join(wantStations, ","), "NYCT", fname, "affected stations are M11-M14, M16, M18", p.pos(fix.Pos()), strings.Join(stations, ","), "the station set is "+strings.Join(stations, ",")+", documented set is "+strings.Join(wantStations, ","))
 			expr := b.bind(fs.store.Val)
 			// the character table: under 'N' (78) store 'S' (83), under 'S' store 'N', nothing else
 			charOK := checkSwapTable(fs.store)
@@ -361,18 +381,19 @@ func runNyctTrips(c *Ctx) {
 				rows = append(rows, condsString(r.conds)+" -> "+r.results[0])
 			}
 			sort.Strings(rows)
-			dep := "call:GetTime(call:GetDeparture(*(stopTimes[const(0)])))"
-			arr := "call:GetTime(call:GetArrival(*(stopTimes[const(0)])))"
-			feed := "conv[int64](feedCreatedAt)"
-			nz := "len(stopTimes)!=0"
+			pA, pS, pF := stale.Params[0].Name(), stale.Params[1].Name(), stale.Params[2].Name()
+			dep := "call:GetTime(call:GetDeparture(*(" + pS + "[const(0)])))"
+			arr := "call:GetTime(call:GetArrival(*(" + pS + "[const(0)])))"
+			feed := "conv[int64](" + pF + ")"
+			nz := "len(" + pS + ")!=0"
 			want := normaliseStaleRows([]string{
-				"isAssigned==true -> const:false",
-				"isAssigned!=true && len(stopTimes)==0 -> const:true",
-				"isAssigned!=true && " + nz + " && " + dep + "==0 && " + arr + "==0 -> const:true",
-				"isAssigned!=true && " + nz + " && " + dep + "==0 && " + arr + "!=0 && (" + arr + "<" + feed + ") -> const:true",
-				"isAssigned!=true && " + nz + " && " + dep + "==0 && " + arr + "!=0 && !((" + arr + "<" + feed + ")) -> const:false",
-				"isAssigned!=true && " + nz + " && " + dep + "!=0 && (" + dep + "<" + feed + ") -> const:true",
-				"isAssigned!=true && " + nz + " && " + dep + "!=0 && !((" + dep + "<" + feed + ")) -> const:false",
+				pA + "==true -> const:false",
+				pA + "!=true && len(" + pS + ")==0 -> const:true",
+				pA + "!=true && " + nz + " && " + dep + "==0 && " + arr + "==0 -> const:true",
+				pA + "!=true && " + nz + " && " + dep + "==0 && " + arr + "!=0 && (" + arr + "<" + feed + ") -> const:true",
+				pA + "!=true && " + nz + " && " + dep + "==0 && " + arr + "!=0 && !((" + arr + "<" + feed + ")) -> const:false",
+				pA + "!=true && " + nz + " && " + dep + "!=0 && (" + dep + "<" + feed + ") -> const:true",
+				pA + "!=true && " + nz + " && " + dep + "!=0 && !((" + dep + "<" + feed + ")) -> const:false",
 			})
 			sort.Strings(want)
 			got := normaliseStaleRows(rows)
@@ -582,7 +603,7 @@ func checkSwapTable(st *ssa.Store) bool {
 		found := false
 		conds := dominatingConds(pred)
 		if iff, ok := pred.Instrs[len(pred.Instrs)-1].(*ssa.If); ok && len(pred.Succs) == 2 && pred.Succs[0] != pred.Succs[1] {
-			conds = append(conds, condEdge{iff.Cond, pred.Succs[0] == phi.Block(), iff})
+			conds = append(conds, condEdge{Cond: iff.Cond, Val: pred.Succs[0] == phi.Block(), If: iff})
 		}
 		for _, ce := range conds {
 			if bo, ok := ce.Cond.(*ssa.BinOp); ok && bo.Op == token.EQL && ce.Val {
@@ -612,7 +633,7 @@ func runNyctAlerts(c *Ctx) {
 		return
 	}
 	// Y1: timetabled no-service table and its guard
-	keys, ok := c.mapLiteralKeys("nyctalerts", "timetabledNoServicePriorities")
+	keys, ok := c.mapLiteralKeys("nyctalerts", "map[proto.MercuryEntitySelector_Priority]bool")
 	wantKeys := []string{"MercuryEntitySelector_PRIORITY_NO_MIDDAY_SERVICE", "MercuryEntitySelector_PRIORITY_NO_OVERNIGHT_SERVICE", "MercuryEntitySelector_PRIORITY_NO_WEEKEND_SERVICE"}
 	c.Check(ok && strings.Join(keys, ",") == strings.Join(wantKeys, ","), "ALRT", "nyctalerts.timetabledNoServicePriorities", "timetabled no-service priorities", "-", strings.Join(keys, ","), "the table of timetabled no-service priorities is "+strings.Join(keys, ",")+" (documented: no midday / overnight / weekend service)")
 	fname := shortName(ua)
@@ -634,7 +655,7 @@ func runNyctAlerts(c *Ctx) {
 			continue // the elevator path
 		}
 		nSkip++
-		okG := hasGuard(gs, "+", "SkipTimetabledNoServiceAlerts") && hasGuard(gs, "+", "lookup(timetabledNoServicePriorities", "getPriorityFromInformedEntity(")
+		okG := hasGuard(gs, "+", "SkipTimetabledNoServiceAlerts") && hasGuard(gs, "+", "lookup(", "map[proto.MercuryEntitySelector_Priority]bool", "proto:Alert.InformedEntity")
 		c.Check(okG, "ALRT", fname, "alerts dropped exactly for timetabled no-service priorities with the option set", p.pos(blk.Instrs[0].Pos()), "return true dominated by opts.SkipTimetabledNoServiceAlerts and membership of the entity's priority in the table", "an alert can be dropped without the option being set or for a priority outside the timetabled no-service table")
 	}
 	if nSkip == 0 {
@@ -665,9 +686,9 @@ func runNyctAlerts(c *Ctx) {
 		pw, al, el := "", "", ""
 		for _, alt := range got {
 			switch {
-			case hasGuard(alt.guards, "+", `strings.HasPrefix(deref(param:ID),const:"lmm:planned_work")`):
+			case hasGuard(alt.guards, "+", `strings.HasPrefix(deref(param:<*string>),const:"lmm:planned_work")`):
 				pw = alt.val
-			case hasGuard(alt.guards, "+", `strings.HasPrefix(deref(param:ID),const:"lmm:alert")`):
+			case hasGuard(alt.guards, "+", `strings.HasPrefix(deref(param:<*string>),const:"lmm:alert")`):
 				al = alt.val
 			default:
 				el = alt.val
@@ -683,7 +704,7 @@ func runNyctAlerts(c *Ctx) {
 		}
 		e := b.bind(fs.store.Val)
 		gs := guardStrings(b, fs.store.Block())
-		c.Check(strings.Contains(e, "lookup(priortyToEffect,getPriorityFromInformedEntity(") && hasGuard(gs, "+", "lookup(priortyToEffect"), "ALRT", fname, "effect from the Mercury priority", p.ipos(fs.store), "Effect = priortyToEffect[priority] when the table has the priority", "the effect is not taken from the priority table: "+clip(e, 100))
+		c.Check(containsAll(e, "lookup(", "map[proto.MercuryEntitySelector_Priority]proto.Alert_Effect") && hasGuard(gs, "+", "lookup(", "map[proto.MercuryEntitySelector_Priority]proto.Alert_Effect"), "ALRT", fname, "effect from the Mercury priority", p.ipos(fs.store), "Effect = priortyToEffect[priority] when the table has the priority", "the effect is not taken from the priority table: "+clip(e, 100))
 	}
 	// Y6: priority extraction
 	{
@@ -739,7 +760,7 @@ func runNyctAlerts(c *Ctx) {
 					}
 				}
 			}
-			m := "regexp.Regexp.FindStringSubmatch(global:elevatorAlertIDRegex,deref(param:ID))"
+			m := "regexp.Regexp.FindStringSubmatch(global:<*regexp.Regexp>,deref(param:<*string>))"
 			wantStation := `fmt.Sprintf(const:"%s#EL%s",[` + m + `[const:1], ` + m + `[const:3]])`
 			wantComplex := `fmt.Sprintf(const:"elevator:EL%s",[` + m + `[const:3]])`
 			wantDefault := `fmt.Sprintf(const:"%s#EL%s",[(` + m + `[const:1] + ` + m + `[const:2]), ` + m + `[const:3]])`
@@ -760,7 +781,7 @@ func runNyctAlerts(c *Ctx) {
 				got["platform"] = alt.val
 			}
 		}
-		m := "regexp.Regexp.FindStringSubmatch(global:elevatorAlertIDRegex,deref(param:ID))"
+		m := "regexp.Regexp.FindStringSubmatch(global:<*regexp.Regexp>,deref(param:<*string>))"
 		c.Check(got["station"] == m+"[const:1]" && got["platform"] == "("+m+"[const:1] + "+m+"[const:2])", "ALRT", efn, "informed stop = station id when configured, else platform id", p.ipos(fs.store), "station = group 1; platform = group 1 + group 2", fmt.Sprintf("informed ids: %v", got))
 	}
 	// Y4: duplicate test over all informed entities of the group, append only when absent
@@ -815,7 +836,11 @@ func runNyctAlerts(c *Ctx) {
 	// elevator alerts are recognised by the id regexp; everything else is passed to the generic path unchanged
 	okRe := false
 	if sp := p.SSAPkg[pkgPathOf("nyctalerts")]; sp != nil {
-		if g, ok := sp.Members["elevatorAlertIDRegex"].(*ssa.Global); ok {
+		for _, mem := range sp.Members {
+			g, ok := mem.(*ssa.Global)
+			if !ok || g.Object() == nil || g.Object().Exported() || shortType(deref(g.Type())) != "*regexp.Regexp" {
+				continue
+			}
 			if pat, ok := c.globalRegexpPattern(g); ok {
 				if rx, err := syntax.Parse(pat, syntax.Perl); err == nil {
 					okRe = rx.MaxCap() == 3 && strings.Contains(pat, "#EL")
@@ -837,7 +862,7 @@ func runNyctAlerts(c *Ctx) {
 				continue
 			}
 			n++
-			if !(hasGuard(gs, "-", "FindStringSubmatch(global:elevatorAlertIDRegex", "== const:nil") || hasGuard(gs, "+", "FindStringSubmatch(global:elevatorAlertIDRegex", "!= const:nil")) {
+			if !(hasGuard(gs, "-", "FindStringSubmatch(global:<*regexp.Regexp>", "== const:nil") || hasGuard(gs, "+", "FindStringSubmatch(global:<*regexp.Regexp>", "!= const:nil")) {
 				okPlain = false
 			}
 		}
@@ -898,4 +923,80 @@ func firstPhi(v ssa.Value) *ssa.Phi {
 		}
 	}
 	return nil
+}
+
+// membershipSet: cond tests membership of a string in a fixed set, written as a lookup in a map literal (local or
+// package level) or as a call of a predicate helper whose decision table answers true exactly for listed constants.
+// Returns the set (sorted) and the tested subject.
+func (c *Ctx) membershipSet(cond ssa.Value) ([]string, ssa.Value, bool) {
+	switch x := cond.(type) {
+	case *ssa.Extract:
+		if lk, ok := x.Tuple.(*ssa.Lookup); ok {
+			return c.membershipSet(lk)
+		}
+	case *ssa.Lookup:
+		if _, isMap := x.X.Type().Underlying().(*types.Map); !isMap {
+			return nil, nil, false
+		}
+		var keys []string
+		n := 0
+		for _, fn := range c.P.ModFns {
+			for _, b := range fn.Blocks {
+				for _, in := range b.Instrs {
+					if mu, ok := in.(*ssa.MapUpdate); ok && (mu.Map == x.X || (types.Identical(mu.Map.Type(), x.X.Type()) && c.P.valueOrigins(mu.Map).intersects(c.P.valueOrigins(x.X)))) {
+						n++
+						k, isS := constString(mu.Key)
+						if !isS {
+							return nil, nil, false
+						}
+						keys = append(keys, k)
+					}
+				}
+			}
+		}
+		if n == 0 {
+			return nil, nil, false
+		}
+		sort.Strings(keys)
+		return keys, x.Index, true
+	case *ssa.Call:
+		cal := x.Call.StaticCallee()
+		if cal == nil || !c.P.isModuleFn(cal) || len(cal.Params) != 1 || len(x.Call.Args) != 1 || cal.Signature.Results().Len() != 1 {
+			return nil, nil, false
+		}
+		if bt, ok := cal.Signature.Results().At(0).Type().Underlying().(*types.Basic); !ok || bt.Kind() != types.Bool {
+			return nil, nil, false
+		}
+		tb, err := extractTable(cal)
+		if err != nil {
+			return nil, nil, false
+		}
+		var keys []string
+		for _, r := range tb.rows {
+			if r.results[0] != "const:true" {
+				if r.results[0] != "const:false" {
+					return nil, nil, false
+				}
+				continue
+			}
+			// a true row: exactly one positive equality of the parameter with a string constant
+			pos := 0
+			for _, a := range r.conds {
+				if a.opaque {
+					return nil, nil, false
+				}
+				if !a.neg && a.subj == cal.Params[0].Name() {
+					pos++
+					keys = append(keys, strings.Trim(a.konst, "\""))
+				}
+			}
+			if pos != 1 {
+				return nil, nil, false
+			}
+		}
+		sort.Strings(keys)
+		keys = dedup(keys)
+		return keys, x.Call.Args[0], len(keys) > 0
+	}
+	return nil, nil, false
 }
